@@ -99,6 +99,25 @@ func Gen(w *bufio.Writer, seed uint64, tier string, prop string) {
 			fmt.Fprintf(w, "E2E sign ps %s sha256 p384 -\n", fx)
 		}
 	}
+	// (1b) JAR shapes the fixture does not have, and histories whose *options* differ between the rounds
+	for _, v := range JarVariants {
+		fmt.Fprintf(w, "E2E sign jar gen:jar:%s.jar sha256 rsa,p256 -\n", v)
+	}
+	for _, h := range []string{
+		"msi dummy.msi sha256 rsa,p256 -|no-extended-sig=true", "msi dummy.msi sha256 rsa,p256 no-extended-sig=true|-",
+		"msi dummy.msi sha1 p256,p256,rsa -|no-extended-sig=true|-",
+		"jar hello.jar sha256 rsa,p256 sections-only=true|-", "jar hello.jar sha256 rsa,p256 -|inline-signature=true",
+		"jar gen:jar:plain.jar sha256 rsa,p256 inline-signature=true|-", "jar hello.jar sha256 p256,p256 key-alias=ONE|key-alias=TWO",
+		"pe-coff ClassLibrary1.dll sha256 rsa,p256 page-hashes=true|-", "pe-coff ClassLibrary1.dll sha256 rsa,p256 -|page-hashes=true",
+		"apk dummy.apk sha256 rsa,p256 -", "ps hello.ps1xml sha256 rsa,p256 -", "ps hello.mof sha256 rsa,p256 -",
+	} {
+		fmt.Fprintf(w, "E2E sign %s\n", h)
+	}
+	if prop == "C02" {
+		fmt.Fprintf(w, "E2E graft jar rsa rsa2\n")
+		fmt.Fprintf(w, "E2E graft jar p256 p256b\n")
+		return
+	}
 	// (2) histories: repeated signing with differing keys (and digests where the type allows)
 	n := 12
 	if tier == "thorough" {
@@ -147,7 +166,10 @@ func payloadView(typ, path string) string {
 		for _, f := range zr.File {
 			n := f.Name
 			up := strings.ToUpper(n)
-			if strings.HasPrefix(up, "META-INF/") && (strings.HasSuffix(up, ".SF") || strings.HasSuffix(up, ".RSA") || strings.HasSuffix(up, ".EC") || strings.HasSuffix(up, ".DSA") || up == "META-INF/MANIFEST.MF") {
+			if strings.HasPrefix(up, "META-INF/") && !strings.Contains(up[len("META-INF/"):], "/") && (strings.HasSuffix(up, ".SF") || strings.HasSuffix(up, ".RSA") || strings.HasSuffix(up, ".EC") || strings.HasSuffix(up, ".DSA") || up == "META-INF/MANIFEST.MF") {
+				continue
+			}
+			if up == "META-INF/" { // directory entry added with the signature files
 				continue
 			}
 			if strings.HasPrefix(n, "package/services/digital-signature/") || n == "[Content_Types].xml" || n == "_rels/.rels" ||
@@ -209,6 +231,157 @@ func payloadView(typ, path string) string {
 	return hex.EncodeToString(h.Sum(nil))[:16]
 }
 
+// genFixture builds synthetic inputs: "gen:jar:<variant>.jar"
+func genFixture(spec string) ([]byte, error) {
+	parts := strings.Split(strings.TrimSuffix(spec, ".jar"), ":")
+	if len(parts) != 3 || parts[1] != "jar" {
+		return nil, fmt.Errorf("unknown generated fixture %s", spec)
+	}
+	return BuildJar(parts[2], []byte("payload of "+parts[2]))
+}
+
+// JarVariants: shapes of JAR input that the fixture does not have
+var JarVariants = []string{"plain", "nomanifest", "attronly", "attronlyall", "nestedmeta", "dirs", "emptymember", "stored", "partialmanifest"}
+
+// BuildJar writes a small JAR of the given shape.
+func BuildJar(variant string, class []byte) ([]byte, error) {
+	var buf bytes.Buffer
+	zw := zip.NewWriter(&buf)
+	add := func(name string, data []byte, method uint16) error {
+		w, err := zw.CreateHeader(&zip.FileHeader{Name: name, Method: method})
+		if err != nil {
+			return err
+		}
+		_, err = w.Write(data)
+		return err
+	}
+	method := zip.Deflate
+	if variant == "stored" {
+		method = zip.Store
+	}
+	manifest := "Manifest-Version: 1.0\r\nCreated-By: verif\r\n\r\n"
+	switch variant {
+	case "attronly": // an entry that is listed with attributes but carries no digest yet
+		manifest += "Name: com/example/A.class\r\nJava-Bean: True\r\n\r\n"
+	case "attronlyall": // every member is listed, none has a digest yet: nothing else forces a manifest rewrite
+		for _, n := range []string{"com/example/A.class", "res/one.txt", "res/two.txt"} {
+			manifest += "Name: " + n + "\r\nJava-Bean: True\r\n\r\n"
+		}
+	case "partialmanifest": // lists one of several members only
+		manifest += "Name: res/one.txt\r\nX-Note: listed\r\n\r\n"
+	}
+	if variant != "nomanifest" {
+		if err := add("META-INF/MANIFEST.MF", []byte(manifest), method); err != nil {
+			return nil, err
+		}
+	}
+	if variant == "dirs" {
+		if err := add("com/", nil, zip.Store); err != nil {
+			return nil, err
+		}
+		if err := add("com/example/", nil, zip.Store); err != nil {
+			return nil, err
+		}
+	}
+	if err := add("com/example/A.class", class, method); err != nil {
+		return nil, err
+	}
+	if err := add("res/one.txt", []byte("one"), method); err != nil {
+		return nil, err
+	}
+	if err := add("res/two.txt", []byte("two two"), method); err != nil {
+		return nil, err
+	}
+	if variant == "emptymember" {
+		if err := add("res/empty.txt", nil, zip.Store); err != nil {
+			return nil, err
+		}
+	}
+	if variant == "nestedmeta" { // payload below META-INF/ that only *looks* like signature files
+		for _, n := range []string{"META-INF/resources/keys/vendor-root.RSA", "META-INF/services/piano.SF", "META-INF/maven/SIG-helper.txt", "META-INF/sub/OTHER.EC"} {
+			if err := add(n, []byte("not a signature: "+n), method); err != nil {
+				return nil, err
+			}
+		}
+	}
+	if err := zw.Close(); err != nil {
+		return nil, err
+	}
+	return buf.Bytes(), nil
+}
+
+// graft: the signature block of JAR A (signed with `key`, content embedded: inline-signature) is dropped into JAR B
+// (different content; manifest and .SF freshly computed by signing B with a *rogue* key of the same type).
+// The verifier, trusting only `key`'s certificate, must reject the result.
+func graftJar(key, rogue string) string {
+	dir, err := os.MkdirTemp("", "vh-graft-")
+	if err != nil {
+		panic(err)
+	}
+	defer os.RemoveAll(dir)
+	a, _ := BuildJar("plain", []byte("genuine class file A"))
+	b, _ := BuildJar("plain", []byte("attacker's class file B"))
+	pa, pb := filepath.Join(dir, "a.jar"), filepath.Join(dir, "b.jar")
+	os.WriteFile(pa, a, 0o644)
+	os.WriteFile(pb, b, 0o644)
+	if err := sg.Sign("jar", pa, pa, sg.Cert(key), crypto.SHA256, map[string]string{"inline-signature": "true"}); err != nil {
+		return "err sign-a:" + strings.ReplaceAll(err.Error(), " ", "_")
+	}
+	if err := sg.Sign("jar", pb, pb, sg.Cert(rogue), crypto.SHA256, nil); err != nil {
+		return "err sign-b:" + strings.ReplaceAll(err.Error(), " ", "_")
+	}
+	isBlock := func(n string) bool {
+		up := strings.ToUpper(n)
+		return strings.HasPrefix(up, "META-INF/") && (strings.HasSuffix(up, ".RSA") || strings.HasSuffix(up, ".EC") || strings.HasSuffix(up, ".DSA"))
+	}
+	var blockA []byte
+	za, err := zip.OpenReader(pa)
+	if err != nil {
+		return "err open-a"
+	}
+	for _, f := range za.File {
+		if isBlock(f.Name) {
+			rc, _ := f.Open()
+			blockA, _ = io.ReadAll(rc)
+			rc.Close()
+		}
+	}
+	za.Close()
+	if blockA == nil {
+		return "err no-block"
+	}
+	zb, err := zip.OpenReader(pb)
+	if err != nil {
+		return "err open-b"
+	}
+	var out bytes.Buffer
+	zw := zip.NewWriter(&out)
+	for _, f := range zb.File {
+		rc, _ := f.Open()
+		data, _ := io.ReadAll(rc)
+		rc.Close()
+		if isBlock(f.Name) {
+			data = blockA
+		}
+		w, _ := zw.CreateHeader(&zip.FileHeader{Name: f.Name, Method: f.Method})
+		w.Write(data)
+	}
+	zb.Close()
+	zw.Close()
+	pg := filepath.Join(dir, "grafted.jar")
+	os.WriteFile(pg, out.Bytes(), 0o644)
+	sigs, err := sg.Verify("jar", pg, sg.Cert(key), false)
+	if err != nil {
+		return "ok rejected"
+	}
+	for _, s := range sigs {
+		if s.X509Signature != nil && s.X509Signature.Certificate.Equal(sg.Cert(key).Leaf) {
+			return "ok ACCEPTED-as-genuine-signer"
+		}
+	}
+	return "ok accepted-as-rogue-signer"
+}
+
 func classifyRefusal(err error) string {
 	s := err.Error()
 	switch {
@@ -217,6 +390,8 @@ func classifyRefusal(err error) string {
 		return "hash"
 	case strings.Contains(s, "no pgp certificate"):
 		return "key"
+	case strings.Contains(s, "JAR did not contain a manifest"):
+		return "input"
 	}
 	return "other:" + strings.ReplaceAll(s, " ", "_")
 }
@@ -237,16 +412,33 @@ func parseFlags(s string) map[string]string {
 
 // Handle: E2E sign <type> <fixture> <hash> <k1,k2,...> <flags>
 func Handle(f []string) string {
+	if f[0] == "graft" && len(f) == 4 && f[1] == "jar" {
+		return graftJar(f[2], f[3])
+	}
 	if f[0] != "sign" {
 		return "bad-op"
 	}
-	typ, fx, hn, flags := f[1], f[2], f[3], parseFlags(f[5])
+	typ, fx, hn := f[1], f[2], f[3]
 	keys := strings.Split(f[4], ",")
+	// flags: one set for all rounds, or one set per round separated by '|'
+	flagSets := strings.Split(f[5], "|")
+	flagsFor := func(i int) map[string]string {
+		if i < len(flagSets) {
+			return parseFlags(flagSets[i])
+		}
+		return parseFlags(flagSets[len(flagSets)-1])
+	}
 	mod := signers.ByName(typ)
 	if mod == nil {
 		return "bad-op"
 	}
-	data, err := os.ReadFile(filepath.Join(fixtures, fx))
+	var data []byte
+	var err error
+	if strings.HasPrefix(fx, "gen:") {
+		data, err = genFixture(fx)
+	} else {
+		data, err = os.ReadFile(filepath.Join(fixtures, fx))
+	}
 	if err != nil {
 		return "bad-op fixture"
 	}
@@ -255,7 +447,7 @@ func Handle(f []string) string {
 		panic(err)
 	}
 	defer os.RemoveAll(dir)
-	path := filepath.Join(dir, filepath.Base(fx))
+	path := filepath.Join(dir, strings.ReplaceAll(filepath.Base(fx), ":", "_"))
 	if err := os.WriteFile(path, data, 0o644); err != nil {
 		panic(err)
 	}
@@ -285,9 +477,9 @@ func Handle(f []string) string {
 		}
 		out := path
 		if i%2 == 1 { // alternate between in-place and new-path output
-			out = filepath.Join(dir, fmt.Sprintf("out%d-%s", i, filepath.Base(fx)))
+			out = filepath.Join(dir, fmt.Sprintf("out%d-%s", i, strings.ReplaceAll(filepath.Base(fx), ":", "_")))
 		}
-		if err := sg.Sign(typ, path, out, cert, h, flags); err != nil {
+		if err := sg.Sign(typ, path, out, cert, h, flagsFor(i)); err != nil {
 			if i == 0 && strings.HasPrefix(err.Error(), "sign:") || strings.HasPrefix(err.Error(), "flags:") {
 				// the input must be untouched by a refusal
 				now, _ := os.ReadFile(path)
